@@ -330,6 +330,7 @@ func genEngine(p *params, emit func(string, bool)) {
 		genSchedManual(p, emit)
 	case "C10":
 		genConnectors(p, emit)
+		genStepShards(p, emit)
 	case "C12":
 		genTimeouts(p, emit)
 	case "C13":
@@ -340,6 +341,7 @@ func genEngine(p *params, emit func(string, bool)) {
 		genFaults(p, emit, 0.25)
 		genStaleReads(p, emit)
 		genStaleLower(p, emit)
+		genTimeoutMoveThenStop(p, emit)
 	case "C16":
 		genReturns(p, emit)
 		genFaults(p, emit, 0.25)
@@ -359,6 +361,48 @@ func genEngine(p *params, emit func(string, bool)) {
 		genFaults(p, emit, 1.0)
 	}
 	_ = r
+}
+
+// STEP consumers under shards (count on the step, as workflow default, both): several runs, so that the event IDs fall into
+// different shards; the functions skip on their first call (the consumer's idempotency must not be what hides a second handling)
+func genStepShards(p *params, emit func(string, bool)) {
+	r := p.rng
+	progs := []prog{
+		mkProg("step-two-shards", "S:1:F,1,11,R,1,2:2:2:0:0 S:2:R,1,3:3:0:0:0"),
+		mkProg("step-three-shards", "S:1:R,1,2:2:3:0:0 S:2:B,R,1,0,R,1,3:3:2:0:0"),
+		mkProg("step-default-count", "S:1:R,1,2:2:0:0:0 S:2:R,1,3:3:0:0:0 O:dpar=3"),
+		mkProg("step-own-and-default", "S:1:R,1,2:2:2:0:0 S:2:R,1,3:3:0:0:0 O:dpar=3"),
+	}
+	for _, pr := range progs {
+		for v := 0; v < p.pick(6, 120); v++ {
+			var ops []string
+			for k := 1; k <= 5; k++ {
+				ops = append(ops, fmt.Sprintf("tr:%d:0:%d", k, 3+k))
+				if r.Intn(2) == 0 {
+					ops = append(ops, permuteRounds(r, pr, 1)...)
+				}
+			}
+			for k := 0; k < 6; k++ {
+				ops = append(ops, permuteRounds(r, pr, 1)...)
+			}
+			ops = append(ops, pr.rounds(3)...)
+			emit(scenario(pr, ops), true)
+		}
+	}
+}
+
+// two timeouts on one status: the first function moves the run to a declared destination, the second cancels / pauses it or fails
+// under an error count of 1 — whatever the second does acts on the run as it is NOW (at the new status), so no write takes the run
+// back to the status it has left
+func genTimeoutMoveThenStop(p *params, emit func(string, bool)) {
+	for _, second := range []string{"X,1:3:0", "P,1:3:0", "E,1,14:3:1", "R,1,4:4:0"} {
+		pr := mkProg("to-move-then-stop", "S:1:R,1,2:2:0:0:0 T:2:100:R,1,3:3:0 T:2:100:"+second+" S:3:R,0,0:4:0:0:0 O:retry=-1")
+		ops := []string{"tr:1:0:4", "tr:2:0:7"}
+		ops = append(ops, pr.rounds(4)...)
+		ops = append(ops, adv(150))
+		ops = append(ops, pr.rounds(4)...)
+		emit(scenario(pr, ops), true)
+	}
 }
 
 // connector consumers under shards, faults, crashes and rewinds: every connector event ends up handled by exactly one shard
